@@ -97,7 +97,7 @@ func ovFuncDecl(recv, name string, sg ovSig, res string, bodyless bool) string {
 	return fmt.Sprintf("func %s%s%s(%s) %s %s\n", recv, name, tp, strings.Join(ps, ", "), ret, body)
 }
 
-var ovKinds = []string{"func", "mval", "mptr", "iface", "xgoo", "inpkg"}
+var ovKinds = []string{"func", "mval", "mptr", "iface", "xgoo", "inpkg", "op"}
 
 // fixture source of package ov for the given families
 func ovFixture(fams [][]int) string {
@@ -126,6 +126,12 @@ func ovFixture(fams [][]int) string {
 		if generic {
 			continue // methods cannot have type parameters
 		}
+		if ovOpFamily(f) {
+			fmt.Fprintf(&b, "type O%s struct{}\n", n)
+			for i, s := range f {
+				b.WriteString(ovFuncDecl(fmt.Sprintf("(O%s) ", n), fmt.Sprintf("XGo_Add__%d", i), ovSigs[s], fmt.Sprintf("R%d", i), false))
+			}
+		}
 		fmt.Fprintf(&b, "type V%s struct{}\ntype P%s struct{}\n", n, n)
 		var im []string
 		for i, s := range f {
@@ -136,6 +142,17 @@ func ovFixture(fams [][]int) string {
 		fmt.Fprintf(&b, "type I%s interface {\n\t%s\n}\n", n, strings.Join(im, "\n\t"))
 	}
 	return b.String()
+}
+
+// an overloaded operator takes exactly one operand besides the receiver
+func ovOpFamily(f []int) bool {
+	for _, s := range f {
+		sg := ovSigs[s]
+		if sg.gen != "" || sg.vari || len(sg.ps) != 1 {
+			return false
+		}
+	}
+	return true
 }
 
 type ovImporter struct {
@@ -263,6 +280,9 @@ func newOvWorld(ovPkg *types.Package, base types.Importer, fams [][]int) *ovWorl
 			pkg.NewVar(token.NoPos, T("P"+n), "vP"+n)
 			pkg.NewVar(token.NoPos, T("I"+n), "vI"+n)
 		}
+		if w.ov.TryRef("O"+n) != nil {
+			pkg.NewVar(token.NoPos, T("O"+n), "vO"+n)
+		}
 	}
 	return w
 }
@@ -343,6 +363,11 @@ func (w *ovWorld) call(p ovPoint, kind string) (g ovG, applicable bool) {
 		if !w.ensureInPkg(p.Fam) {
 			return g, false
 		}
+	case "op":
+		// x + arg with the operator overloaded on x's type: exactly one ordinary argument
+		if w.ov.TryRef("O"+n) == nil || len(p.Call) != 1 || p.Ell || p.Call[0] == "tup" {
+			return g, false
+		}
 	}
 	applicable = true
 	w.errs = nil
@@ -375,6 +400,8 @@ func (w *ovWorld) call(p ovPoint, kind string) (g ovG, applicable bool) {
 		cb.Val(ref("vP"+n)).MemberVal("M", 0)
 	case "iface":
 		cb.Val(ref("vI"+n)).MemberVal("M", 0)
+	case "op":
+		cb.Val(ref("vO" + n))
 	}
 	for _, a := range p.Call {
 		switch a {
@@ -396,7 +423,11 @@ func (w *ovWorld) call(p ovPoint, kind string) (g ovG, applicable bool) {
 			cb.Val(ref(a))
 		}
 	}
-	cb.CallWith(len(p.Call), 0, ovEllipsis(p.Ell))
+	if kind == "op" {
+		cb.BinaryOp(token.ADD)
+	} else {
+		cb.CallWith(len(p.Call), 0, ovEllipsis(p.Ell))
+	}
 	e := cb.InternalStack().Pop()
 	cb.ResetStmt()
 	if len(w.errs) > 0 {
@@ -409,7 +440,10 @@ func (w *ovWorld) call(p ovPoint, kind string) (g ovG, applicable bool) {
 		return g, true
 	}
 	g.callee = types.ExprString(ce.Fun)
-	for _, a := range ce.Args {
+	for i, a := range ce.Args {
+		if kind == "op" && i == 0 && len(ce.Args) == 2 {
+			continue // method-expression form T.XGo_Add__i(x, arg): the receiver
+		}
 		g.args = append(g.args, types.ExprString(a))
 	}
 	if (ce.Ellipsis != token.NoPos) != p.Ell {
@@ -456,6 +490,10 @@ func ovCalleeIdx(callee, kind string, p ovPoint) int {
 		return suffix("vP" + n + ".M__")
 	case "iface":
 		return suffix("vI" + n + ".M__")
+	case "op":
+		if i := strings.LastIndex(callee, "XGo_Add__"); i >= 0 && len(callee) == i+len("XGo_Add__")+1 {
+			return int(callee[len(callee)-1]-'0') + 1
+		}
 	}
 	return 0
 }
